@@ -408,7 +408,6 @@ impl PersistenceManager {
 //@fn PersistenceManager::persist_create_node from=pm selfmut ret=r props=C16,C18,C32
 //@requires
         old(self).inv(),
-        !old(self).storage.nodes@.contains_key((tenant@, node.id.0)),      // ids are fresh (the caller allocates them)
         old(self).tenants.usage_of(tenant@) matches Some(u) ==> u.node_count < usize::MAX,
 //@ensures
         r is Ok ==> final(self).storage.nodes@ == old(self).storage.nodes@.insert((tenant@, node.id.0), rec_n(*node))
@@ -432,7 +431,6 @@ impl PersistenceManager {
 //@fn PersistenceManager::persist_create_edge from=pm selfmut ret=r props=C16,C18,C32
 //@requires
         old(self).inv(),
-        !old(self).storage.edges@.contains_key((tenant@, edge.id.0)),      // ids are fresh (the caller allocates them)
         old(self).tenants.usage_of(tenant@) matches Some(u) ==> u.edge_count < usize::MAX,
 //@ensures
         r is Ok ==> final(self).storage.edges@ == old(self).storage.edges@.insert((tenant@, edge.id.0), rec_e(*edge))
@@ -458,7 +456,6 @@ impl PersistenceManager {
 //@fn PersistenceManager::persist_delete_node from=pm selfmut ret=r props=C16,C18,C32
 //@requires
         old(self).inv(),
-        old(self).storage.nodes@.contains_key((tenant@, node_id)),      // callers delete what they created
 //@ensures
         r is Ok ==> final(self).storage.nodes@ == old(self).storage.nodes@.remove((tenant@, node_id))
             && final(self).storage.edges@ == old(self).storage.edges@,                               //#ok_removes_the_node
@@ -481,7 +478,6 @@ impl PersistenceManager {
 //@fn PersistenceManager::persist_delete_edge from=pm selfmut ret=r props=C16,C18,C32
 //@requires
         old(self).inv(),
-        old(self).storage.edges@.contains_key((tenant@, edge_id)),      // callers delete what they created
 //@ensures
         r is Ok ==> final(self).storage.edges@ == old(self).storage.edges@.remove((tenant@, edge_id))
             && final(self).storage.nodes@ == old(self).storage.nodes@,                               //#ok_removes_the_edge
